@@ -218,7 +218,14 @@ def engines():
     E['weekly+boot'] = [A('ta', 'a', ev=[{'dow': 2, 'time': t0}, {'boot': True}])]
     E['weekly,boot-other-node'] = [A('ta', 'a', ev=[{'dow': 2, 'time': t0}]),
                                    A('ta', 'b', ev=[{'boot': True}])]
-    return {k: {'style': 'legacy', 'algs': v} for k, v in E.items()}
+    out = {k: {'style': 'legacy', 'algs': v} for k, v in E.items()}
+    # self-registering elements (events declared as DAWGIE_SCHEDULE on the class,
+    # collected by dawgie.base.Factories); and the same with every element being
+    # a class of one name nested in its own enclosing class
+    pair = [A('ta', 'a', ev=[{'dow': 2, 'time': t0}]), A('ta', 'b', ev=[{'dom': 15, 'time': t0}])]
+    out['auto:weekly+monthly-one-package'] = {'style': 'auto', 'algs': pair}
+    out['auto:same-class-name-nested'] = {'style': 'auto', 'algs': pair, 'nest_same_name': True}
+    return out
 
 
 def occurrences(ev, boot, horizon_end):
